@@ -507,6 +507,33 @@ func coarseRace(gen func(*Rng, *Scenario)) func(*Rng, *Scenario) {
 	}
 }
 
+// preempt wraps a generator for a statement-level preemption profile: same worlds, executed by the
+// binary built against the instrumented copy of rux, scheduled by a seeded random walk over a
+// random subset of the per-file statement sites.
+func preempt(gen func(*Rng, *Scenario)) func(*Rng, *Scenario) {
+	return func(rng *Rng, sc *Scenario) {
+		gen(rng, sc)
+		r := NewRng(sc.Seed, uint64(sc.Run), 0x70726565)
+		sc.Pre = true
+		sc.Schedule = nil
+		sc.CacheFaults = nil
+		sc.PreSeed = r.U64() | 1
+		sc.PreRate = []int{2, 4, 8, 16, 40, 120}[r.Intn(6)]
+		switch r.Intn(4) {
+		case 0:
+			sc.Sites = append(sc.Sites, "p.route_cache")
+		case 1:
+			sc.Sites = append(sc.Sites, "p.*")
+		default:
+			for _, s := range preSites {
+				if r.Chance(1, 2) {
+					sc.Sites = append(sc.Sites, s)
+				}
+			}
+		}
+	}
+}
+
 // GenSites draws the subset of yield sites enabled for a run (swarm testing).
 func GenSites(rng *Rng) []string {
 	var out []string
